@@ -946,6 +946,18 @@ def _r4(run, tag, f: Func, reader):
             if isinstance(x, ast.Name) and len(nm.defs.defs.get(x.id, [])) > 1:
                 dvars.add(x.id)
 
+    # a local computed FROM a delimiter variable (`part_delimiter = _CRLF + delimiter`, bound once before the loop) holds the
+    # value the variable had at that point: it is evaluated at its definition like the variable itself, not at its uses
+    changed = True
+    while changed and dvars:
+        changed = False
+        for name, ds in nm.defs.defs.items():
+            if name in dvars or name in nm.defs.params or name in flags:
+                continue
+            if any(isinstance(x, ast.Name) and x.id in dvars for d in ds if len(d) > 1 and isinstance(d[1], ast.AST) for x in ast.walk(d[1])):
+                dvars.add(name)
+                changed = True
+
     labels: Dict[int, List[str]] = {}
     for n in cfg.live_nodes():
         out = []
